@@ -99,6 +99,7 @@ def run(prop, tier):
 def replay(prop, path):
     """Re-run the stored case against the current tree."""
     out = C.Outcome(prop, "quick")
+    out.no_evidence = True
     wd = C.workdir("c18r")
     try:
         v = json.load(open(path))
